@@ -202,11 +202,11 @@ def search(ctx):
     env = {'ASAN_OPTIONS': 'detect_leaks=0:abort_on_error=0', 'UBSAN_OPTIONS': 'print_stacktrace=1'}
     wit, stats = [], {}
     q = ctx.quick
-    # 1. corpus of past failures first: the regime-switch scenarios (fixed in /repo) and the SILK budget-bust scenario
+    # 1. corpus of past failures first: regime-switch and nan-pattern (both fixed in /repo), then the two known findings
     _run_search(h, ['scen', 'regime-switch', '0', '16', '1', '0'], env, wit, stats)
+    _run_search(h, ['scen', 'nan-pattern', '0', '11', '1', '0'], env, wit, stats)
     _run_search(h, ['scen', 'silk-bust', '0', '1', '1', '0'], env, wit, stats)
     _run_search(h, ['scen', 'low-budget-gray', '0', '1', '1', '0'], env, wit, stats)
-    _run_search(h, ['scen', 'nan-pattern', '0', '11', '1', '0'], env, wit, stats)
     # 2. digital silence at complexity >= 7 / Fs >= 16 kHz must reach DTX within the stated window (real detector)
     stride = 6 if q else 1
     _run_search(h, ['scen', 'silence-grid', str(ctx.seed % stride), '648', str(stride), '0'], env, wit, stats)
